@@ -26,7 +26,7 @@ func init() {
 				Rule: "the compared value and the key are fields of the old parameter; the new value is what is written; the returned checkpoint holds new and the store's new token", Run: c05c},
 			{ID: "C05.d", Title: "SQLITE-SERIALISED", Template: "T3", MinInst: 4,
 				Rule: "SQLiteBackend.conn is used only with SQLiteBackend.mu held, including the Changes() read after Exec",
-				Run: c05d},
+				Run:  c05d},
 			{ID: "C05.e", Title: "READ-YOUR-WRITES", Template: "T5", MinInst: 3,
 				Rule: "PRAGMA synchronous = FULL is executed on the connection stored in the backend; DynamoDB GetItem sets ConsistentRead true; the ETag GetObject sends no-cache and the CAS read header", Run: c05e},
 			{ID: "C05.g", Title: "CAS-FAIL-IS-ERROR", Template: "T8", MinInst: 6,
